@@ -620,8 +620,11 @@ package core
 //@ func (*JApiCore).BuildResourceMethodsPathVariables
 //@   tag C13
 //@   insertonly [C13] allProjectProperties
+// ... and a prefix that IS in the table already is an error ("a parameter declared twice for one prefix is rejected"): a
+// comma-ok lookup that finds its key ends in a non-nil return before the next iteration - not in a 'continue'
+//@   rejectonhit [C13] allProjectProperties
 //@   deletesites [C13] pp 1
-//@   unclaimed kind!=insert-only&delete-sites only the insert-only discipline of the table and the single place where a declared property is taken off the list of unmatched ones are claimed here; the loops over the raw Path declarations and the schema maps are not under a functional contract
+//@   unclaimed kind!=insert-only&delete-sites&reject-on-hit only the insert-only and reject-on-hit disciplines of the table and the single place where a declared property is taken off the list of unmatched ones are claimed here; the loops over the raw Path declarations and the schema maps are not under a functional contract
 
 // ---------------------------------------------------------------- Path bodies given by reference (C01, C13)
 // following a type reference never leaves the walk on a schema without JSight content (a regex or any user type): F23
